@@ -537,13 +537,15 @@ func giveUpRaceScenario(ct qCtor, n int, byTimeout bool) *mc.Scenario {
 			granted := make([]bool, n)
 			returned := make([]bool, n)
 			cancels := make([]vctx.CancelFunc, n)
+			toks := make([]core.Listener, n)
 			hold := vchan.Make[int]()
 			for i := 0; i < n; i++ {
 				i := i
 				var ctx vctx.Context
 				ctx, cancels[i] = vctx.WithCancel(waiterCtx(i))
 				vrt.GoL(fmt.Sprintf("W%d", i), func() {
-					_, ok := top.Acquire(ctx)
+					l, ok := top.Acquire(ctx)
+					toks[i] = l
 					granted[i], returned[i] = ok, true
 					if ok {
 						hold.Recv() // keep the token
@@ -591,6 +593,39 @@ func giveUpRaceScenario(ct qCtor, n int, byTimeout bool) *mc.Scenario {
 			for i := range granted {
 				if granted[i] && i != head && i != next {
 					x.Fail("order/"+ct.order+"-served-wrong-waiter", "waiter %d was granted; head is %d, next is %d", i, head, next)
+				}
+			}
+			// follow-up: whoever holds the token releases it; each release must serve the next caller in
+			// the configured order among those still waiting (the race must not have damaged the backlog)
+			released := make([]bool, n)
+			for round := 0; round < n && !x.Failed() && !byTimeout; round++ {
+				holder := -1
+				for i := range granted {
+					if granted[i] && !released[i] {
+						holder = i
+					}
+				}
+				if holder < 0 {
+					break
+				}
+				want := -1
+				for i := 0; i < n; i++ {
+					if !returned[i] && (want < 0 || ct.order == "lifo") {
+						want = i
+					}
+				}
+				released[holder] = true
+				toks[holder].OnSuccess()
+				vrt.WaitQuiescent()
+				if want >= 0 && !granted[want] {
+					got := -1
+					for i := range granted {
+						if granted[i] && !released[i] {
+							got = i
+						}
+					}
+					x.Fail("order/"+ct.order+"-served-wrong-waiter", "%s after the give-up race: waiter %d released, waiter %d was next in line but waiter %d was served (granted=%v returned=%v)",
+						strings.ToUpper(ct.order), holder, want, got, granted, returned)
 				}
 			}
 		},
